@@ -3,7 +3,7 @@
 # quick checks there (VERIF_REPO / VERIF_OUT redirected to the scratch dir). One line per check: HOLDS | VIOLATION ... | INCONCLUSIVE ...
 # env: J (cores per check, default 8), TIER, SCRATCH
 cd /verif || exit 2
-n=$1; p=$2; shift 2
+n=$1; p=$(realpath "$2"); shift 2
 d=${SCRATCH:-/tmp/seedreg}/$n; rm -rf "$d"; mkdir -p "$d"; git -C /repo worktree prune
 git -C /repo worktree add -q --detach "$d/wt" HEAD || { echo "ERROR worktree"; exit 2; }
 if ! git -C "$d/wt" apply "$p" 2>/dev/null; then echo "PATCH-DOES-NOT-APPLY $n"; git -C /repo worktree remove --force "$d/wt"; rm -rf "$d"; exit 3; fi
